@@ -87,8 +87,10 @@ def judge_answer(st, ans, sig, logic, decls, blk):
     stale = bool(st.unsat_frames_gone) and (ev is None or ev["stale"] is None or ev["stale"])
     ite_named = any(name is not None and cc.has_nonbool_ite(body, sig) for f in st.frames for body, name, _ in f["items"])
     if ev is not None:
-        ite_named = ite_named and ev["ite_hidden"]
-    ite_any = any(cc.has_nonbool_ite(b, sig) for b in allb)
+        # with the trace the rewriting itself is observed (a stored formula with an auxiliary ite constant); which ites are
+        # rewritten is the solver's business (also Bool-sorted ones below uninterpreted functions)
+        ite_named = ev["ite_hidden"] and any(name is not None and cc.has_ite(body) for f in st.frames for body, name, _ in f["items"])
+    ite_any = any(cc.has_ite(b) for b in allb)
     # a current assertion whose term was asserted again later (the partition map then holds the later index only); with the
     # trace: additionally a leaf mask bit that no partition carries
     _tw = []
